@@ -56,7 +56,7 @@ func main() {
 	}
 	targets := dw.AllIDs()
 	tStart := time.Now()
-	deadline := c.Deadline(12*time.Minute, 3*time.Hour)
+	deadline := c.Deadline(12*time.Minute, 75*time.Minute)
 
 	workers := c.Workers
 	if workers > 8 {
